@@ -86,7 +86,7 @@ func c07Options(in *c07Input) []interpreter.ExecutionOptionFunc {
 	case "nil-scripts":
 		o = append(o, interpreter.WithScripts(nil, nil))
 	}
-	o = append(o, interpreter.WithFlags(scriptflag.Flag(in.Flags)))
+	o = append(o, flagOptions(in.Flags, len(in.Unlock)+3*len(in.Lock)+int(in.Flags%7))...)
 	return o
 }
 
@@ -303,8 +303,8 @@ func init() {
 		{
 			pubk := gen.Push(append([]byte{0x02}, bytesOf(0x11, 32)...))
 			derLike := append([]byte{0x30, 0x06, 0x02, 0x01, 0x01, 0x02, 0x01, 0x01}, 0x41)
-			ua := [][]byte{{0x00}, {0x51}, gen.Push(derLike), gen.Push([]byte{0x43}), gen.Push([]byte{0xc3}), gen.Push([]byte{0x01}), pubk, {0xab}, {0x6a}, {0x63}, {0x67}, {0x68}, {0x61}, {0x76}}
-			la := [][]byte{pubk, {0xac}, {0xad}, {0xae}, {0xaf}, {0x51}, {0x52}, {0x00}, {0xab}, {0x91}, {0x6a}, {0x63}, {0x68}, {0x76}, {0x75}}
+			ua := [][]byte{{0x00}, {0x51}, gen.Push(derLike), gen.Push([]byte{0x43}), gen.Push([]byte{0xc3}), gen.Push([]byte{0x01}), pubk, {0xab}, {0x6a}, {0x63}, {0x67}, {0x68}, {0x61}, {0x76}, gen.Push([]byte{0x01, 0x02, 0x01}), gen.Push(c07KeyG)}
+			la := [][]byte{pubk, {0xac}, {0xad}, {0xae}, {0xaf}, {0x51}, {0x52}, {0x00}, {0xab}, {0x91}, {0x6a}, {0x63}, {0x68}, {0x76}, {0x75}, gen.Push(c07KeyG), gen.Push(c07Key2G)}
 			N3 := uint64(60000)
 			if c.Thorough {
 				N3 = 2000000
@@ -373,7 +373,7 @@ func init() {
 		}
 		c.Phase("hash-type-sweep") // all 256 hash type bytes on a well-formed signature x every (inputs, outputs, checked index) shape x flag sets x CHECKSIG / 1-of-1 CHECKMULTISIG
 		{
-			pk := append([]byte{0x02}, bytesOf(0x11, 32)...)
+			pk := c07KeyG
 			der := []byte{0x30, 0x06, 0x02, 0x01, 0x01, 0x02, 0x01, 0x01}
 			flagSets := []uint32{0, uint32(scriptflag.UTXOAfterGenesis), uint32(scriptflag.VerifyDERSignatures), uint32(scriptflag.VerifyStrictEncoding),
 				uint32(scriptflag.UTXOAfterGenesis | scriptflag.EnableSighashForkID), uint32(scriptflag.VerifyNullFail)}
@@ -394,6 +394,9 @@ func init() {
 							} else {
 								u = append([]byte{0x00}, sig...)
 								l = append(append([]byte{0x51}, gen.Push(pk)...), 0x51, 0xae, 0x91)
+								if ht%2 == 1 { // 1-of-2
+									l = append(append(append([]byte{0x51}, gen.Push(pk)...), gen.Push(pk)...), 0x52, 0xae, 0x91)
+								}
 							}
 							judge(c, &c07Input{Unlock: u, Lock: l, Flags: fl, Mode: "tx", Dbg: []string{"none", "recording"}[(ht+fi)%2],
 								Ctx: progCtx{HasTx: true, Version: 1, Sequence: 0xffffffff, Sats: shape}, Src: "hash-type-sweep"})
@@ -428,10 +431,19 @@ func init() {
 							}
 							sig := append(body, 0x41)
 							u := gen.Push(sig)
-							l := append(gen.Push(pub), 0xac)
-							if n%3 == 0 { // multisig
+							l := append(gen.Push([][]byte{pub, c07KeyG}[n%2]), 0xac)
+							if n%3 == 0 { // multisig: 1-of-1, 1-of-2, 1-of-3, 2-of-3 (the malformed signature is then tried against several keys)
+								nk, m := []int{1, 2, 3, 3}[(n/3)%4], []int{1, 1, 1, 2}[(n/3)%4]
+								if m == 2 {
+									u = append(u, gen.Push(append([]byte{0x30, 0x06, 0x02, 0x01, 0x01, 0x02, 0x01, 0x01}, 0x41))...)
+								}
 								u = append([]byte{0x00}, u...)
-								l = append(append([]byte{0x51}, gen.Push(pub)...), 0x51, 0xae)
+								l = []byte{byte(0x50 + m)}
+								for k := 0; k < nk; k++ {
+									pk := [][]byte{c07KeyG, c07Key2G, pub}[(int(n/12)+k)%3]
+									l = append(l, gen.Push(pk)...)
+								}
+								l = append(l, byte(0x50+nk), 0xae)
 							}
 							judge(c, &c07Input{Unlock: u, Lock: l, Flags: fl, Mode: "tx", Dbg: "none", Ctx: defaultCtx(), Src: "der-variants"})
 						}
@@ -499,6 +511,11 @@ func init() {
 	}
 	mon.Register(p)
 }
+
+// two public keys that are points of the curve (G and 2G): a key that does not
+// parse ends a signature check before the signature is looked at
+var c07KeyG = []byte{0x02, 0x79, 0xbe, 0x66, 0x7e, 0xf9, 0xdc, 0xbb, 0xac, 0x55, 0xa0, 0x62, 0x95, 0xce, 0x87, 0x0b, 0x07, 0x02, 0x9b, 0xfc, 0xdb, 0x2d, 0xce, 0x28, 0xd9, 0x59, 0xf2, 0x81, 0x5b, 0x16, 0xf8, 0x17, 0x98}
+var c07Key2G = []byte{0x02, 0xc6, 0x04, 0x7f, 0x94, 0x41, 0xed, 0x7d, 0x6d, 0x30, 0x45, 0x40, 0x6e, 0x95, 0xc0, 0x7c, 0xd8, 0x5c, 0x77, 0x8e, 0x4b, 0x8c, 0xef, 0x3c, 0xa7, 0xab, 0xac, 0x09, 0xb9, 0x5c, 0x70, 0x9e, 0xe5}
 
 func bytesOf(b byte, n int) []byte {
 	o := make([]byte, n)
